@@ -337,7 +337,7 @@ func run(c *lib.Ctx) {
 	c.Assume("main chain only (real-recipient differs from recipient only on parachains)",
 		"proxied transactions: eth-signed outer transaction to the configured proxy address carrying an inner coins transfer (the evm executor itself is not part of this repository); delayed transactions: submitted through EventAddDelayTx (the block-embedded none/CommitDelayTx route is not driven)",
 		"the evm executor is a plugin outside this repository: the harness registers a stand-in executor under the name evm (interprets nothing) so that evm-shaped and proxied transactions are admissible as on a chain that has the plugin")
-	n := c.N(900, 150000)
+	n := c.N(900, 90000)
 	per := 150
 	nb := (n + per - 1) / per
 	lib.Parallel(nb, 12, func(bi int) {
